@@ -383,12 +383,15 @@ def map_on_missing(ctx):
     for xs in ([1, -1], [-1, 1, -2], [1, 2, 3], [-1, -2]):
         missing_b = sum(1 for x in xs if x <= 0)
         for runner_kind, k in (("sync", None), ("async", None), ("async", 1), ("async", 2)):
-            for pol in ("ignore", "warn", "error"):
+            for pol in ("ignore", "warn", "error", "ignore:graph-select", "warn:graph-select", "error:graph-select"):
+                # the selection is passed to map(), or it is the graph's own default (graph.select) and map() gets none
+                pol, _, how = pol.partition(":")
+                gg = g.select("b", "t") if how else g
                 with warnings.catch_warnings(record=True) as wl:
                     warnings.simplefilter("always")
-                    kw = {"map_over": "x", "select": ["b", "t"], "on_missing": pol, "error_handling": "continue"}
+                    kw = {"map_over": "x", "on_missing": pol, "error_handling": "continue", **({} if how else {"select": ["b", "t"]})}
                     try:
-                        res = SyncRunner().map(g, {"x": list(xs)}, **kw) if runner_kind == "sync" else asyncio.run(AsyncRunner().map(g, {"x": list(xs)}, max_concurrency=k, **kw))
+                        res = SyncRunner().map(gg, {"x": list(xs)}, **kw) if runner_kind == "sync" else asyncio.run(AsyncRunner().map(gg, {"x": list(xs)}, max_concurrency=k, **kw))
                     except Exception as e:  # noqa: BLE001
                         ctx.violation("C16:on_missing-map", f"{runner_kind}/k={k} map(on_missing={pol!r}, continue) over {xs} raised {e!r}", {"program": "map on_missing", "xs": xs, "policy": pol})
                         continue
@@ -396,7 +399,7 @@ def map_on_missing(ctx):
                 ctx.obs["on_missing_checked"] += 1
                 ctx.obs["map_on_missing_calls"] += 1
                 failed = sum(1 for r in res if r.status.value == "failed")
-                case = {"program": "map on_missing", "xs": xs, "policy": pol, "runner": runner_kind, "max_concurrency": k}
+                case = {"program": "map on_missing", "xs": xs, "policy": pol, "runner": runner_kind, "max_concurrency": k, "selection": how or "run-time"}
                 want_w = missing_b if pol == "warn" else 0
                 want_f = missing_b if pol == "error" else 0
                 if nw != want_w or failed != want_f or len(res) != len(xs):
